@@ -207,16 +207,26 @@ impl<'a> Multiboot2Header<'a> {
 
 //@extract multiboot2-header/src/header.rs :: impl<'a> Multiboot2Header<'a> :: fn get_tag
 //@  ret r
-//@  closure 0: |tag: &&'a DynSizedStructure<HeaderTagHeader>| -> (b: bool) ensures b == (dyn_hdr(*tag).typ == T::ID)
+//@  closure 0: |tag: &&'a DynSizedStructure<HeaderTagHeader>| -> (b: bool) ensures b == (dyn_hdr(*tag).typ as u16 == T::ID as u16)
 //@  closure 1: |tag: &'a DynSizedStructure<HeaderTagHeader>| -> (c: &'a T) requires dyn_wf(tag) ensures cast_post(tag, c)
 //@  rewrite /self\s*\.iter\(\)\s*\.find\(/ => /tagiter_find_owned(self.iter(), /
 //@  spec:
 //@    requires self.wf(), panics_allowed(),
 //@    ensures
 //@        // C11: the first tag in walk order whose type is T::ID, viewed as T; nothing when there is none
-//@        exists|it: TagIter<'a, HeaderTagHeader>| #[trigger] hdr_iter(self, it)
-//@            && getter_post::<HeaderTagHeader, T>(it, |h: HeaderTagHeader| h.typ == T::ID, r),
+//@        hdr_getter_post::<T>(self, T::ID as u16, r),
 //@end
+}
+
+/// "the header tag's type number is `num`"
+pub open spec fn htyp_is(num: u16) -> spec_fn(HeaderTagHeader) -> bool {
+    |h: HeaderTagHeader| h.typ as u16 == num
+}
+
+/// C11: `r` is the typed view of the first tag of the header's walk whose type number is `num`; `None`: there is none
+pub open spec fn hdr_getter_post<'a, T: MaybeDynSized<Header = HeaderTagHeader> + ?Sized>(b: &Multiboot2Header<'a>, num: u16, r: Option<&'a T>) -> bool {
+    exists|it: TagIter<'a, HeaderTagHeader>| #[trigger] hdr_iter(b, it)
+        && getter_post::<HeaderTagHeader, T>(it, htyp_is(num), r)
 }
 
 /// the iterator state `iter()` starts from: offset 16 of the header, covering exactly the rest of its declared length
